@@ -6,7 +6,7 @@ CFG = {
                                    ("random", "-mode random -tier %s" % tier)],
     "signatures": {},
     "rule": "exhaustive: every history of exactly L steps (quick L=6, one heap: Insert key 1 / Insert key 2 with fresh values / Delete / DeleteAll; "
-            "three keys without DeleteAll, L=5; two mergeable heaps, L=4: the same on both plus Merge in both directions; binary heap additionally with initial sizes 1..4) x 3 implementations "
+            "three keys without DeleteAll, L=5; binomial/Fibonacci two keys without DeleteAll, L=8; two mergeable heaps, L=4: the same on both plus Merge in both directions; binary heap additionally with initial sizes 1..4) x 3 implementations "
             "x min/max comparator, with the full battery Size/IsEmpty/Peek/ContainsKey 1,2,3/ContainsValue held,absent/verify()/layout dump after every step; "
             "shapes: binary heap fill-and-drain across every resize boundary for initial sizes 0..6, merges of heaps of sizes a,b (carry chains, three trees of one order) "
             "then drain, 2^k+1 inserts + Delete (one tree of degree k, k <= 9 quick / 12 thorough) with ascending/descending/equal/random keys, float64 maxDegree(n) against the exact definition; random: pools of 1..8 heaps, up to 1200 (thorough 2000) steps, duplicate-heavy key ranges "
